@@ -7,6 +7,10 @@ CLAIMS = {
  'C18': dict(category='proof',
    text='bitset<N> (9 sizes incl. multiples of 64 and neighbours): every mutator/query/constructor/proxy operation proved bit-for-bit against the std::bitset semantics for all contents, all positions and ALL 2^64 shift amounts, incl. frame and the bits>=N invariant (class Pc, loops over <=4 words fully unrolled); array accessors proved to return the std::array addresses; pcg32 step/seed/bounded-draw contracts proved (z3 for the 64-bit multiply); mt19937 and insertion_sort are bounded stand-ins (reference vector; arrays of length <=5/6).',
    note='Trusted: clang AST + frg2c lowering (layout self-check on every run), CBMC 6.11 DFCC, SAT and z3 back ends. bitset verified per listed N, not for all N in one proof. mt19937 only bounded (reference outputs for two seeds); array_concat not covered (std::tuple_size_v outside the lowered AST).'),
+
+ 'C17': dict(category='proof',
+   text='optional<T>, expected<E,T>, variant<int,T,char>, manual_box<T>, tuple: every constructor, copy/move, all assignment (destination state x source state incl. empty<-empty, different alternative), emplace, destruction and accessor is proved against a contract stating the std:: state machine (engaged flag / tag / error code, held value, accessor returns the address of the held object, source unchanged or moved-from) for T with observable lifetime; loop-free, all inputs (class P).',
+   note='Trusted: clang AST + frg2c lowering (layout self-check), CBMC 6.11 DFCC + SAT, element-type stub (value + in-band lifetime flags, operations do not fail). Verified for the listed instantiations, not for all T. apply/tuple_cat/map/map_error and the converting optional assignments are not covered.'),
 }
 _ALL = ['C%02d' % i for i in range(1, 21)]
 NOT_APPLICABLE = {p: 'check not built yet in this session (planned, see DESIGN.md section 7); not a statement about the technique' for p in _ALL if p not in CLAIMS}
